@@ -11,18 +11,26 @@
           no pop invoked so far -- has quiesced, the heap is a max-heap holding exactly the pushed items.  The
           invariant is the tag invariant of Hunt, Michael, Parthasarathy, Scott: a cell tagged with a thread id is
           the cell that thread is bubbling; an Available cell is not larger than any of its ancestors.
-      (b) NOT proved: a phase of CONCURRENT pops is linearizable in the order in which the pops acquire the size
-          lock.  The invariant needed: node-lock ownership (only the holder of a node lock changes the cell; the
-          invariant of MsPqInv ignores node locks), a set of "dirty" cells = the pParent cells of the pops in
-          heapify_after_pop; every cell in use is not larger than its nearest non-dirty ancestor; a pop that has
-          taken the size lock and waits for the top lock has as its specification result the maximum of the cells;
-          when it obtains the top lock the top is not dirty, hence is that maximum.  Linearization point = dec()
-          under the size lock (ghost events would mark it in the trace, as "g_full" does for a failed push).
+      (b) PROVED as far as the heap is concerned (LV.Proofs.MsPqPop, [mspq_two_phase_heap]): a phase of concurrent
+          pushes followed by a phase of CONCURRENT pops -- any schedule; no pop invoked while a push is pending, no
+          push invoked after the first pop -- leaves a max-heap holding exactly the items not handed back whenever
+          no operation is pending.  The invariant is the one sketched here before: node-lock ownership (only the
+          holder of a node lock changes the cell), the "frontier" cells = the pParent cells of the pops inside
+          heapify_after_pop (each locked by its pop), every cell in use is not larger than ANY of its ancestors that
+          is not a frontier cell, and all ancestors of a cell in use are in use ([MsPqPop.PopFacts]).
+          NOT proved: the ORDER of a pop phase (each pop returns a maximum of the abstract multiset at its
+          linearization point dec() under the size lock, ghost event "g_dec").  What is missing is the linkage to
+          the specification state: "a pop that holds the size lock, or the top lock without having exchanged the
+          top yet, owes the specification the maximum; when it obtains the top lock the top cell is not a frontier
+          cell (its lock was free), hence holds the maximum of the cells, which is that value" -- the facts
+          about the cells it needs are [PopFacts.k5] (+ [k1], [k4]); the bookkeeping of the owed results is not done.
       (c) NOT proved: the composition -- histories alternating quiescent push-only and pop-only phases are
-          [lp_valid] with the LPs at the size-lock acquisitions; it needs (b), and (a) restated from an arbitrary
-          max-heap instead of the empty one (the invariant of MsPqPush is already stated that way: [B_ok], [W_ok]
-          only require that no pop is in progress; the hypothesis "no pop invoked so far" would become "no pop in
-          progress and the last pop phase left a max-heap", which is what (b) has to deliver). *)
+          [lp_valid] with the LPs at the size-lock acquisitions.  Push-only phases are [lp_valid]
+          (LV.Proofs.MsPqPushLin); it needs the order part of (b), the multiset linkage of the push phase (the
+          specification state after a quiescent push phase is a permutation of the priorities in the heap), and
+          [MsPqPush.Ext] / [MsPqPop.PExt] restated per phase instead of "no pop invoked so far" / "no push invoked
+          after the first pop" (the heap a pop phase leaves is [Good], which is what the push invariant [B_ok],
+          [W_ok] needs at its start). *)
 From Coq Require Import ZArith List String Bool Lia PeanoNat Permutation.
 From LV Require Import Base.Conc Base.Events Base.Lin Spec.Specs Model.MsPq
   Proofs.LinProofs Proofs.MsPqBrc Proofs.MsPqInv Proofs.MsPqHeap Proofs.MsPqSeq.
